@@ -59,7 +59,7 @@ def plot_cyclepoints_df(df_samples, sig, fs, plot_sig=True, plot_extrema=True,
     """
 
     # Ensure arguments are within valid range
-    check_param_range(fs, 'fs', (0, np.inf))
+    check_param_range(fs, 'fs', (np.finfo(float).tiny, np.inf))      # strictly positive
 
     # Determine extrema/zero-crossings from dataframe
     center_e, side_e = get_extrema_df(df_samples)
@@ -133,7 +133,7 @@ def plot_cyclepoints_array(sig, fs, peaks=None, troughs=None, rises=None, decays
     """
 
     # Ensure arguments are within valid range
-    check_param_range(fs, 'fs', (0, np.inf))
+    check_param_range(fs, 'fs', (np.finfo(float).tiny, np.inf))      # strictly positive
 
     # Set times and limits
     times = np.arange(0, len(sig) / fs, 1 / fs)
